@@ -7,6 +7,7 @@ import (
 	"io"
 	"math/rand"
 	"os"
+	"os/exec"
 	"path/filepath"
 	"strconv"
 	"strings"
@@ -40,13 +41,16 @@ type c02File struct {
 }
 
 type c02Case struct {
-	Mode     string // cat | grep
-	Files    []c02File
-	Glob     bool
-	SSH      bool
-	Limit    int // MaxConcurrentCats
-	Pace     pacing
-	Points   string // VERIF_POINTS for client (serverless) / none
+	Mode   string // cat | grep
+	Files  []c02File
+	Glob   bool
+	SSH    bool
+	Limit  int // MaxConcurrentCats
+	Pace   pacing
+	Points string // VERIF_POINTS for client (serverless) / none
+	// Aborts: that many sessions of other clients are killed in the middle of
+	// a transfer on the same server right before this (judged) session.
+	Aborts   int
 	PipeSize int
 	Provoke  bool // deterministic provocation of the recorded finding
 }
@@ -335,6 +339,11 @@ func c02Body(r *vlib.Run) int {
 			c.SSH = false
 		}
 	}
+	for i, c := range cases {
+		if c.SSH && i%3 == 0 {
+			c.Aborts = 2 // >= the cat limit of two thirds of the servers
+		}
+	}
 	var poolMu sync.Mutex
 	free := make(chan *c02Server, len(pool))
 	for _, s := range pool {
@@ -372,6 +381,9 @@ func c02Run(r *vlib.Run, i int, c *c02Case, cfgs map[int]string, free chan *c02S
 	traceFile := filepath.Join(r.Dir("c02trace"), fmt.Sprintf("t%d.jsonl", i))
 	if c.SSH {
 		srv := <-free
+		for a := 0; a < c.Aborts; a++ {
+			c02AbortedSession(r, srv)
+		}
 		// the server's limit decides; pick up the trace written during this case
 		before := len(readTrace(srv.trace))
 		full := append(srv.fl.ClientArgs(), "--logger", "stdout", "--logLevel", "error")
@@ -517,6 +529,38 @@ func c02Run(r *vlib.Run, i int, c *c02Case, cfgs map[int]string, free chan *c02S
 		what = "exit-status"
 	}
 	r.Violation(what, detail())
+}
+
+var c02BigOnce sync.Once
+var c02BigFile string
+
+// c02AbortedSession: a client whose output nobody reads is killed while the
+// server is blocked sending to it (Ctrl-C, "| head", dropped connection).
+func c02AbortedSession(r *vlib.Run, srv *c02Server) {
+	c02BigOnce.Do(func() {
+		c02BigFile = filepath.Join(r.Dir("c02big"), "big.log")
+		c02WriteFile(c02BigFile, 999, 120000)
+	})
+	full := append(srv.fl.ClientArgs(), "--logger", "stdout", "--logLevel", "error", "--plain", "--files", c02BigFile)
+	cmd := exec.Command(r.Bin("dcat"), full...)
+	cmd.Env = append(vlib.BaseEnv(""), srv.fl.ClientEnv()...)
+	cmd.Dir = srv.fl.Home
+	pr, pw, err := os.Pipe()
+	if err != nil {
+		return
+	}
+	cmd.Stdout = pw
+	if err := cmd.Start(); err != nil {
+		pr.Close()
+		pw.Close()
+		return
+	}
+	pw.Close()
+	time.Sleep(500 * time.Millisecond)
+	cmd.Process.Kill()
+	cmd.Wait()
+	pr.Close()
+	r.Count("aborted_sessions_before_judged_ones", 1)
 }
 
 func equalInts(a, b []int) bool {
